@@ -11,7 +11,7 @@ namespace ratio
 {
     item::item(core &cr, const context ctx, type &tp) : env(cr, context(ctx)), tp(tp) {}
 
-    lit item::new_eq(item &i) noexcept
+    lit item::new_eq(item &i)
     {
         if (this == &i)
             return TRUE_lit;
@@ -21,7 +21,7 @@ namespace ratio
             return FALSE_lit;
     }
 
-    bool item::equates(item &i) noexcept
+    bool item::equates(item &i)
     {
         if (this == &i)
             return true;
@@ -93,26 +93,34 @@ namespace ratio
 
     CORE_EXPORT arith_item::arith_item(core &cr, type &t, const lin &l) : item(cr, context(&cr), t), l(l) { assert(&t == &cr.get_type(INT_KEYWORD) || &t == &cr.get_type(REAL_KEYWORD) || &t == &cr.get_type(TP_KEYWORD)); }
 
-    lit arith_item::new_eq(item &i) noexcept
+    lit arith_item::new_eq(item &i)
     {
         if (this == &i)
             return TRUE_lit;
         else if (arith_item *ae = dynamic_cast<arith_item *>(&i))
             if (get_type().get_name().compare(TP_KEYWORD) == 0 || ae->get_type().get_name().compare(TP_KEYWORD) == 0)
+            {
+                if ((get_type().get_name().compare(TP_KEYWORD) != 0 && !l.vars.empty()) || (ae->get_type().get_name().compare(TP_KEYWORD) != 0 && !ae->l.vars.empty()))
+                    throw std::invalid_argument("time-points cannot be combined with integer or real variables..");
                 return get_core().get_rdl_theory().new_eq(l, ae->l);
+            }
             else
                 return get_core().get_lra_theory().new_eq(l, ae->l);
         else
             return FALSE_lit;
     }
 
-    bool arith_item::equates(item &i) noexcept
+    bool arith_item::equates(item &i)
     {
         if (this == &i)
             return true;
         else if (const arith_item *ae = dynamic_cast<const arith_item *>(&i))
             if (get_type().get_name().compare(TP_KEYWORD) == 0 || ae->get_type().get_name().compare(TP_KEYWORD) == 0)
+            {
+                if ((get_type().get_name().compare(TP_KEYWORD) != 0 && !l.vars.empty()) || (ae->get_type().get_name().compare(TP_KEYWORD) != 0 && !ae->l.vars.empty()))
+                    throw std::invalid_argument("time-points cannot be combined with integer or real variables..");
                 return get_core().get_rdl_theory().equates(l, ae->l);
+            }
             else
                 return get_core().get_lra_theory().equates(l, ae->l);
         else
